@@ -332,4 +332,39 @@ theorem split_mem {N : Nat} (excl : Array Bool) {es : Array (SEdge α)} {ord : L
     obtain ⟨_, _, _, hx, _⟩ := hinv.rightAtt j r hr
     exact hx
 
+/-! ### The node table -/
+
+theorem reorderCol_get {β : Type} [Inhabited β] (col : Array β) (o : Out) (v : Nat)
+    (hv : v < o.order.length) : (reorderCol col o.order)[v]? = some (aget col (orig o v)) := by
+  unfold reorderCol orig
+  rw [List.getElem?_map, List.getD_eq_getElem?_getD, List.getElem?_eq_getElem hv]
+  rfl
+
+theorem markSplit_size (bit : Nat) (flags : Array Nat) (split : List Nat) :
+    (markSplit bit flags split).size = flags.size := by
+  unfold markSplit
+  induction split generalizing flags with
+  | nil => rfl
+  | cons a l ih => simp only [List.foldl_cons]; rw [ih]; simp
+
+theorem markSplit_get (bit : Nat) (flags : Array Nat) (split : List Nat)
+    (hs : ∀ j ∈ split, j < flags.size) (i : Nat) :
+    aget (markSplit bit flags split) i = if i ∈ split then aget flags i ||| bit else aget flags i := by
+  unfold markSplit
+  induction split generalizing flags with
+  | nil => simp
+  | cons a l ih =>
+    simp only [List.foldl_cons]
+    have ha : a < flags.size := hs a (List.mem_cons_self ..)
+    rw [ih (aset flags a (aget flags a ||| bit))
+      (fun j hj => by rw [size_aset]; exact hs j (List.mem_cons_of_mem _ hj))]
+    rw [aget_aset _ _ _ _ ha]
+    by_cases hia : i = a
+    · subst hia
+      simp only [↓reduceIte, List.mem_cons, true_or]
+      split_ifs
+      · rw [Nat.or_assoc, Nat.or_self]
+      · rfl
+    · simp only [hia, ↓reduceIte, List.mem_cons, false_or]
+
 end Tsdate.Split
